@@ -30,7 +30,12 @@ KINDS = ["bytes0", "bytesN", "bytesChunked", "paySized", "payUnsized", "streamCL
 COMPS = ["off", "nego", "forced"]
 HCONN = ["none", "close", "keepalive"]
 
-RBODY = ["none", "bytes0", "bytesN", "str", "paySized", "payUnsized", "form", "multipart"]
+RBODY = ["none", "bytes0", "bytesN", "str", "paySized", "payUnsized", "slowSized", "slowUnsized", "form", "multipart"]
+XMODES = ["default", "reject417", "reject403", "no100"]
+ABORTS = ["none", "beforeHead", "midBody"]
+PRES = ["fresh", "reused", "stale"]
+HOOKS = ["ok", "raise"]
+STREAM_KINDS = ("streamCL", "streamChunked", "streamPlain")
 RCHUNKED = ["None", "True", "False"]
 RCOMPRESS = ["off", "deflate", "gzip"]
 RMETHODS = ["GET", "HEAD", "POST", "PUT", "DELETE"]
@@ -47,6 +52,7 @@ REQ_HEADERS = [
     [("X-Long", "v" * 3000)],
     [("X-Ws", "a  b\tc"), ("X-Utf", "café")],
     [("Content-Type", "application/x-custom; p=1"), ("Accept", "text/x-verif")],
+    [("Host", "virtual.example:8080"), ("X-One", "1")],
 ]
 COOKIES = [{}, {"c1": "v1"}, {"a": "1", "b": "two", "sid": "abc-DEF_09"}]
 RESP_HEADERS = [
@@ -104,17 +110,27 @@ def raw_pairs(raw_headers: Any) -> List[List[str]]:
 
 
 # ------------------------------------------------------------------ the world: one server app, many exchanges
+EXPECT_PREFIX = {"default": "", "reject417": "/x417", "reject403": "/x403", "no100": "/xno100"}
+SLOW_GAP = 0.5          # virtual seconds between the pieces of a slow (streamed) request body
+HANDLER_DELAY = 1.0     # virtual seconds a delayed handler sleeps (before the head / inside the body)
+
+
 class World:
     def __init__(self, loop: steploop.StepLoop) -> None:
         from aiohttp import web
+        from multidict import CIMultiDict
 
         self.loop = loop
         self.web = web
         self.plans: Dict[int, dict] = {}
         self.seen: Dict[int, dict] = {}
         self.next_id = 1
+        self.current_id = 0
         self.dir = mktemp("c02files")
         self.files: Dict[int, str] = {}
+        # header containers owned by the "application" and reused for every message built from the same header set
+        self.shared_resp = [CIMultiDict(h) for h in RESP_HEADERS]
+        self.shared_req = [CIMultiDict(h) for h in REQ_HEADERS]
         world = self
 
         @web.middleware
@@ -124,8 +140,37 @@ class World:
                 return await world.handler(request)
             return await handler(request)
 
+        def rejecting(status: int) -> Any:
+            async def expect_handler(request: Any) -> None:
+                plan = world.plan_of(request)
+                if plan is None:
+                    return
+                seen = world.note_request(plan, request, entered=False)
+                exc = web.HTTPExpectationFailed() if status == 417 else web.HTTPForbidden()
+                body = (exc.text or "").encode("utf-8")
+                seen["rejected"] = True
+                seen["ret"] = {"status": exc.status, "reason": exc.reason, "headers": [], "refused": "",
+                               "body_len": len(body), "body_crc": crc(body)}
+                raise exc
+            return expect_handler
+
+        async def silent_expect(request: Any) -> None:       # a custom expect handler that sends no "100 Continue"
+            return None
+
+        async def prepare_hook(request: Any, response: Any) -> None:
+            plan = world.plan_of(request)
+            if plan is not None and plan["resp"].get("hook", "ok") == "raise":
+                seen = world.seen.setdefault(plan["id"], {"entered": 0})
+                if not seen.get("hook_fired"):        # the handler's response; the error page that follows passes
+                    seen["hook_fired"] = True
+                    raise RuntimeError("on_response_prepare handler failed")
+
         app = web.Application(middlewares=[connect_mw])
+        app.router.add_route("*", "/x417/{tail:.*}", self.handler, expect_handler=rejecting(417))
+        app.router.add_route("*", "/x403/{tail:.*}", self.handler, expect_handler=rejecting(403))
+        app.router.add_route("*", "/xno100/{tail:.*}", self.handler, expect_handler=silent_expect)
         app.router.add_route("*", "/{tail:.*}", self.handler)
+        app.on_response_prepare.append(prepare_hook)
         self.kit = WireKit(loop, app, session_kw={})
         self.handler_tasks: Dict[int, Any] = {}
 
@@ -138,20 +183,22 @@ class World:
         return self.files[n]
 
     # ---------------------------------------------------------------- server side
-    async def handler(self, request: Any) -> Any:
-        web = self.web
+    def plan_of(self, request: Any) -> Optional[dict]:
+        if request.path == "/probe":
+            return None
         try:
-            rid = int(request.headers.get("X-Id", "0"))
+            rid = int(request.headers.get("X-Id", "") or self.current_id)
         except ValueError:
             rid = 0
-        plan = self.plans.get(rid)
-        if plan is None:       # the persistence probe (or a request mangled beyond recognition)
-            self.seen.setdefault(-1, {"n": 0})["n"] += 1
-            return web.Response(text="probe")
+        return self.plans.get(rid)
+
+    def note_request(self, plan: dict, request: Any, entered: bool = True) -> dict:
+        rid = plan["id"]
         seen = self.seen.setdefault(rid, {"entered": 0})
-        seen["entered"] += 1
-        seen["exited"] = False
-        self.handler_tasks[rid] = asyncio.current_task()
+        if entered:
+            seen["entered"] += 1
+            seen["exited"] = False
+            self.handler_tasks[rid] = asyncio.current_task()
         seen["method"] = request.method
         seen["path"] = request.path
         seen["raw_target"] = request.raw_path
@@ -161,11 +208,23 @@ class World:
         seen["cookies"] = sorted(pairs(request.cookies.items()))
         seen["version"] = f"{request.version.major}.{request.version.minor}"
         seen["keep_alive"] = bool(request.keep_alive)
+        return seen
+
+    async def handler(self, request: Any) -> Any:
+        web = self.web
+        plan = self.plan_of(request)
+        if plan is None:       # the persistence probe / warm-up request (or a request mangled beyond recognition)
+            self.seen.setdefault(-1, {"n": 0})["n"] += 1
+            return web.Response(text="probe")
+        seen = self.note_request(plan, request)
         body = b""
         seen["body_exc"] = ""
-        if request.method != "CONNECT":       # a CONNECT request has no body: what follows is the tunnel
+        seen["body_read"] = False
+        early = bool(plan["resp"].get("early", False))
+        if request.method != "CONNECT" and not early:    # a CONNECT request has no body: what follows is the tunnel
             try:
                 body = await request.read()
+                seen["body_read"] = True
             except asyncio.CancelledError:
                 raise
             except Exception as exc:  # noqa: BLE001
@@ -173,6 +232,8 @@ class World:
         seen["body_len"] = len(body)
         seen["body_crc"] = crc(body)
         try:
+            if plan["resp"].get("delay", "none") == "head":
+                await asyncio.sleep(HANDLER_DELAY)
             resp = await self.respond(plan, request, seen)
         finally:
             seen["exited"] = True
@@ -188,7 +249,17 @@ class World:
         ret: Dict[str, Any] = {"status": status, "reason": r["reason"], "headers": lower_names(r["headers"]),
                                "refused": ""}
         seen["ret"] = ret
-        kw: Dict[str, Any] = {"status": status, "headers": list(r["headers"])}
+        hcont = r.get("hcont", "list")
+        shared = None
+        if hcont == "shared" and [list(h) for h in r["headers"]] in [[list(x) for x in hs] for hs in RESP_HEADERS]:
+            shared = self.shared_resp[[[list(x) for x in hs] for hs in RESP_HEADERS].index([list(h) for h in r["headers"]])]
+            hdrs: Any = shared
+            seen["shared_before"] = pairs(shared.items())
+        elif hcont == "dict" and len({h[0].lower() for h in r["headers"]}) == len(r["headers"]):
+            hdrs = {h[0]: h[1] for h in r["headers"]}
+        else:
+            hdrs = [tuple(h) for h in r["headers"]]
+        kw: Dict[str, Any] = {"status": status, "headers": hdrs}
         if r["reason"] is not None:
             kw["reason"] = r["reason"]
         streaming = kind in ("streamCL", "streamChunked", "streamPlain")
@@ -233,38 +304,58 @@ class World:
             if streaming:
                 await resp.prepare(request)
                 step = r.get("wstep") or max(1, len(data))
+                if r.get("delay", "none") == "body":
+                    step = max(1, len(data) // 2)
                 for i in range(0, len(data), step):
                     await resp.write(data[i:i + step])
+                    if r.get("delay", "none") == "body" and i == 0:
+                        await asyncio.sleep(HANDLER_DELAY)
                 await resp.write_eof()
         except RuntimeError as exc:
-            # the API refuses the combination (chunked encoding for HTTP/1.0) before anything is sent; the framework
-            # answers 500 on the handler's behalf
+            # the API refuses the combination (chunked encoding for HTTP/1.0), or an on_response_prepare handler failed,
+            # before anything is sent; the framework answers 500 on the handler's behalf
             if getattr(resp._payload_writer, "_headers_written", False):
                 raise
             ret["refused"] = type(exc).__name__
             ret["status"], ret["reason"], ret["headers"] = 500, "Internal Server Error", []
             ret["body_len"], ret["body_crc"] = -1, -1
             raise
+        finally:
+            if shared is not None:
+                seen["shared_after"] = pairs(shared.items())
         return resp
 
     # ---------------------------------------------------------------- client side
     def request_kwargs(self, plan: dict) -> Tuple[str, str, dict, bytes]:
-        from aiohttp import FormData, HttpVersion10, HttpVersion11
-        from aiohttp import payload as aiopayload
+        from aiohttp import FormData
 
         q = plan["req"]
-        url = "http://srv.test" + q["path"] + (("?" + q["query"]) if q["query"] else "")
-        headers: List[Tuple[str, str]] = [("X-Id", str(plan["id"]))] + [tuple(h) for h in q["headers"]]
+        prefix = EXPECT_PREFIX[q.get("expectMode", "default")]
+        path = q["path"] if not prefix else prefix + q["path"]
+        url = "http://srv.test" + path + (("?" + q["query"]) if q["query"] else "")
+        user = [list(h) for h in q["headers"]]
+        extra: List[Tuple[str, str]] = []
         if q["rconn"] == "close":
-            headers.append(("Connection", "close"))
+            extra.append(("Connection", "close"))
         elif q["rconn"] == "keepalive":
-            headers.append(("Connection", "keep-alive"))
+            extra.append(("Connection", "keep-alive"))
         if not q.get("accept_encoding", True):
-            headers.append(("Accept-Encoding", "identity"))
-        kw: Dict[str, Any] = {"headers": headers}
+            extra.append(("Accept-Encoding", "identity"))
         n = q["n"]
         data = body_bytes(n, 9)
         kind = q["body"]
+        if kind == "slowSized":
+            extra.append(("Content-Length", str(len(data))))
+        all_sets = [[list(x) for x in hs] for hs in REQ_HEADERS]
+        if q.get("hcont", "list") == "shared" and not extra and user in all_sets:
+            # the caller's own CIMultiDict, reused for every request with this header set (no X-Id: the handler falls
+            # back to World.current_id)
+            headers: Any = self.shared_req[all_sets.index(user)]
+            issued = [tuple(h) for h in user]
+        else:
+            issued = [("X-Id", str(plan["id"]))] + [tuple(h) for h in user] + extra
+            headers = list(issued)
+        kw: Dict[str, Any] = {"headers": headers}
         logical = data
         if kind == "none":
             logical = b""
@@ -284,6 +375,14 @@ class World:
                 for i in range(0, len(data), 40000):
                     yield data[i:i + 40000]
             kw["data"] = gen()
+        elif kind in ("slowSized", "slowUnsized"):
+            async def slow() -> Any:                 # three pieces, the event loop (and virtual time) runs in between
+                step = max(1, (len(data) + 2) // 3)
+                for i in range(0, len(data), step):
+                    if i:
+                        await asyncio.sleep(SLOW_GAP)
+                    yield data[i:i + step]
+            kw["data"] = slow()
         elif kind == "form":
             kw["data"] = {"k": "v" * max(1, n - 2), "e": "a&b=c"}
             logical = b""           # judged through the wire only (the encoding is FormData's)
@@ -301,6 +400,7 @@ class World:
             kw["expect100"] = True
         if q["cookies"]:
             kw["cookies"] = dict(q["cookies"])
+        kw["_issued"] = issued
         return q["method"], url, kw, logical
 
     def new_plan(self, req: dict, resp: dict) -> dict:
@@ -311,15 +411,23 @@ class World:
         return plan
 
     def run_exchange(self, plan: dict, scripts: Tuple[Any, Any]) -> dict:
-        """One end-to-end exchange + persistence probe on a fresh session/connection. Returns the record."""
+        """One end-to-end exchange + persistence probe on a fresh session.  Returns the record.
+
+        req.pre   fresh   the exchange opens its connection
+                  reused  a warm-up request ran first: the exchange reuses the pooled connection
+                  stale   as reused, but the server has closed the idle connection and its FIN is still in flight: the
+                          client writes into a dead connection and (idempotent methods) retries on a new one
+        req.abort none | beforeHead | midBody: the caller is cancelled while it waits for the response head / reads the
+                  body (the handler is delayed accordingly); the probe request follows at once
+        """
+        from aiohttp import HttpVersion10, HttpVersion11
         from yarl import URL
 
         kit = self.kit
         loop = self.loop
-        from aiohttp import HttpVersion10, HttpVersion11
         kit.new_session(version=HttpVersion10 if plan["req"]["version"] == "1.0" else HttpVersion11)
-        kit.scripts = scripts
         rid = plan["id"]
+        self.current_id = rid
         self.seen.pop(rid, None)
         self.seen.pop(-1, None)
         res: Dict[str, Any] = {"exc": "", "api_exc": ""}
@@ -327,83 +435,127 @@ class World:
             method, url, kw, logical = self.request_kwargs(plan)
         except Exception as exc:  # noqa: BLE001
             raise MachineryError(f"cannot build request for plan {plan}: {exc!r}")
+        issued = kw.pop("_issued")
+        req_shared = kw["headers"] if not isinstance(kw["headers"], list) else None
+        req_shared_before = pairs(req_shared.items()) if req_shared is not None else []
+        pre = plan["req"].get("pre", "fresh")
+        abort = plan["req"].get("abort", "none")
+
+        async def simple(tag: str, out: dict) -> None:
+            try:
+                async with kit.session.get("http://srv.test/probe") as r:
+                    out["status"] = r.status
+                    out["body"] = await r.read()
+            except Exception as exc:  # noqa: BLE001
+                out["exc"] = type(exc).__name__
+
+        # ---- connection history
+        kit.scripts = scripts if pre == "reused" else (Whole(), Whole())
+        warm: Dict[str, Any] = {}
+        if pre != "fresh":
+            wt = kit.spawn("w", simple("w", warm))
+            kit.settle(0)
+            if not (wt.done() and warm.get("status") == 200 and kit.links and not kit.links[0].cli_closed):
+                pre = "fresh"                 # no pooled connection came out of the warm-up (HTTP/1.0 ...): nothing to reuse
+            elif pre == "stale":
+                kit.links[0].s_tr.close()     # the server gives up the idle connection; the FIN is held back by the relay
+        base_links = len(kit.links)
+        off_c = len(kit.links[0].c2s.sent) if base_links else 0
+        off_s = len(kit.links[0].s2c.sent) if base_links else 0
+        kit.scripts = scripts
 
         async def go() -> None:
             try:
-                r = await kit.session.request(method, url, **kw)
+                async with kit.session.request(method, url, **kw) as r:
+                    res["status"] = r.status
+                    res["reason"] = r.reason
+                    res["headers"] = raw_pairs(r.raw_headers)
+                    res["hmap"] = lower_names(r.headers.items())
+                    res["version"] = f"{r.version.major}.{r.version.minor}" if r.version else ""
+                    res["got_head"] = True
+                    try:
+                        body = await r.read()
+                        res["body_len"] = len(body)
+                        res["body_crc"] = crc(body)
+                        res["got_body"] = True
+                    except asyncio.CancelledError:
+                        raise
+                    except Exception as exc:  # noqa: BLE001
+                        res["exc"] = type(exc).__name__
+                        res["exc_msg"] = str(exc)[:200]
             except asyncio.CancelledError:
                 res["exc"] = "Cancelled"
                 raise
             except ValueError as exc:
-                res["api_exc"] = f"{type(exc).__name__}"
-                return
+                if not res.get("got_head"):
+                    res["api_exc"] = f"{type(exc).__name__}"
+                else:
+                    res["exc"] = type(exc).__name__
             except Exception as exc:  # noqa: BLE001
-                res["exc"] = type(exc).__name__
-                res["exc_msg"] = str(exc)[:200]
-                return
-            res["status"] = r.status
-            res["reason"] = r.reason
-            res["headers"] = raw_pairs(r.raw_headers)
-            res["hmap"] = lower_names(r.headers.items())
-            res["version"] = f"{r.version.major}.{r.version.minor}" if r.version else ""
-            res["got_head"] = True
-            try:
-                body = await r.read()
-                res["body_len"] = len(body)
-                res["body_crc"] = crc(body)
-                res["got_body"] = True
-            except asyncio.CancelledError:
-                res["exc"] = "Cancelled"
-                r.close()
-                raise
-            except Exception as exc:  # noqa: BLE001
-                res["exc"] = type(exc).__name__
-                res["exc_msg"] = str(exc)[:200]
+                if not res["exc"]:
+                    res["exc"] = type(exc).__name__
+                    res["exc_msg"] = str(exc)[:200]
 
         t = kit.spawn("x", go())
-        kit.settle(HORIZON)
-        cli_done = t.done()
-        link = kit.links[0] if kit.links else None
-        seen = self.seen.get(rid, {"entered": 0})
-        ht = self.handler_tasks.pop(rid, None)
-        q: Dict[str, Any] = {
-            "cliDone": bool(cli_done),
-            "handlerEntered": int(seen.get("entered", 0)),
-            "handlerDone": bool(seen.get("exited", seen.get("entered", 0) == 0)),
-            "nlinks": len(kit.links),
-        }
-        c2s = bytes(link.c2s.sent) if link else b""
-        s2c = bytes(link.s2c.sent) if link else b""
-        if link is not None:
-            q.update({"srvClosed": bool(link.srv_closed), "cliClosed": bool(link.cli_closed),
-                      "srvClosedOwn": "s" in link.own_close, "cliClosedOwn": "c" in link.own_close,
-                      "lostC2S": link.c2s.lost, "lostS2C": link.s2c.lost,
-                      "srvDrExc": len(link.s_tr.dr_excs), "cliDrExc": len(link.c_tr.dr_excs),
-                      "segC2S": link.c2s.segments, "segS2C": link.s2c.segments})
+        aborted = "none"
+        if abort == "none":
+            kit.settle(HORIZON)
         else:
-            q.update({"srvClosed": False, "cliClosed": False, "srvClosedOwn": False, "cliClosedOwn": False,
-                      "lostC2S": 0, "lostS2C": 0, "srvDrExc": 0, "cliDrExc": 0, "segC2S": 0, "segS2C": 0})
-        # ---- persistence probe: does the next request on the session open a new connection?
+            kit.settle(0)                     # no timers: the delayed handler is still asleep
+            at = "beforeHead" if not res.get("got_head") else "midBody"
+            if not t.done() and at == abort:
+                t.cancel()
+                aborted = abort
+                kit.settle(0)
+            else:
+                kit.settle(HORIZON)           # the exchange was over before the cancellation point: nothing to abort
+        cli_done = t.done()
+        link = kit.links[-1] if kit.links else None
+        if link is not None and len(kit.links) > base_links:
+            off_c = off_s = 0                 # the exchange (or its retry) ran on a connection of its own
+        seen = self.seen.get(rid, {"entered": 0})
+
+        def observe() -> Dict[str, Any]:
+            q: Dict[str, Any] = {
+                "cliDone": bool(t.done()),
+                "handlerEntered": int(seen.get("entered", 0)),
+                "handlerDone": bool(seen.get("exited", seen.get("entered", 0) == 0)),
+                "nlinks": len(kit.links), "aborted": aborted, "pre": pre, "retried": len(kit.links) - max(base_links, 1),
+            }
+            if link is not None:
+                q.update({"srvClosed": bool(link.srv_closed), "cliClosed": bool(link.cli_closed),
+                          "srvClosedOwn": "s" in link.own_close, "cliClosedOwn": "c" in link.own_close,
+                          "lostC2S": link.c2s.lost, "lostS2C": link.s2c.lost,
+                          "srvDrExc": len(link.s_tr.dr_excs), "cliDrExc": len(link.c_tr.dr_excs),
+                          "segC2S": link.c2s.segments, "segS2C": link.s2c.segments})
+            else:
+                q.update({"srvClosed": False, "cliClosed": False, "srvClosedOwn": False, "cliClosedOwn": False,
+                          "lostC2S": 0, "lostS2C": 0, "srvDrExc": 0, "cliDrExc": 0, "segC2S": 0, "segS2C": 0})
+            return q
+        q = observe()
+        c2s = bytes(link.c2s.sent[off_c:]) if link else b""
+        s2c = bytes(link.s2c.sent[off_s:]) if link else b""
+        # ---- persistence probe: does the next request on the session open a new connection? is it answered properly?
         q["probe"] = "skipped"
         q["probeNewConn"] = False
         if cli_done and not res["api_exc"] and link is not None:
             pres: Dict[str, Any] = {}
-
-            async def probe() -> None:
-                try:
-                    r = await kit.session.get("http://srv.test/probe")
-                    pres["status"] = r.status
-                    pres["body"] = await r.read()
-                except Exception as exc:  # noqa: BLE001
-                    pres["exc"] = type(exc).__name__
+            nl = len(kit.links)
             kit.scripts = (Whole(), Whole())
-            pt = kit.spawn("p", probe())
+            pt = kit.spawn("p", simple("p", pres))
             kit.settle(HORIZON)
-            q["probeNewConn"] = len(kit.links) > 1
-            q["probe"] = "ok" if (pt.done() and pres.get("status") == 200 and pres.get("body") == b"probe") \
-                else ("exc:" + pres.get("exc", "stuck"))
-        if not cli_done:
+            if aborted != "none":
+                q = dict(observe(), probe="", probeNewConn=False)      # decisions are complete only now
+            q["probeNewConn"] = len(kit.links) > nl
+            if pt.done() and pres.get("status") == 200 and pres.get("body") == b"probe":
+                q["probe"] = "ok"
+            elif pt.done() and "status" in pres:
+                q["probe"] = "foreign"         # the probe was answered with somebody else's response
+            else:
+                q["probe"] = "exc:" + pres.get("exc", "stuck")
+        if not t.done():
             t.cancel()
+        ht = self.handler_tasks.pop(rid, None)
         if ht is not None and not ht.done():
             ht.cancel()
         kit.close_session()
@@ -411,15 +563,16 @@ class World:
         loop._scheduled.clear()
         excs = [str(c.get("message", ""))[:80] for c in loop.exc_contexts]
         loop.exc_contexts.clear()
-        return {"plan": plan, "method": method, "url": URL(url), "kw": kw, "logical": logical, "res": res,
-                "seen": seen, "q": q, "c2s": c2s, "s2c": s2c, "loop_excs": excs,
-                "scripts": (scripts[0].name, scripts[1].name)}
+        intact = {"req": req_shared is None or pairs(req_shared.items()) == req_shared_before,
+                  "resp": seen.get("shared_before") == seen.get("shared_after")}
+        return {"plan": plan, "method": method, "url": URL(url), "kw": kw, "issued": issued, "logical": logical,
+                "res": res, "seen": seen, "q": q, "c2s": c2s, "s2c": s2c, "off": (off_c, off_s), "intact": intact,
+                "loop_excs": excs, "scripts": (scripts[0].name, scripts[1].name)}
 
     def close(self) -> None:
         self.kit.close()
 
 
-# ------------------------------------------------------------------ projection: record -> trace
 def _tokens(values: List[str]) -> List[str]:
     out: List[str] = []
     for v in values:
@@ -430,7 +583,7 @@ def _tokens(values: List[str]) -> List[str]:
 def wire_fields(buf: bytes, head: Optional[dict], end: int) -> Dict[str, Any]:
     """Framing fields and body arithmetic of the message whose head is `head` and that the sender ended at `end`."""
     blank = {"present": False, "hdrs": [], "cl": -1, "te": "none", "conn": "none", "expect": False, "ce": "",
-             "after": 0, "chunkOk": False, "chunkRecs": [], "chunkTrailer": 0, "dataLen": 0,
+             "after": 0, "chunkOk": False, "chunkShort": False, "chunkRecs": [], "chunkTrailer": 0, "dataLen": 0,
              "lenDecRaw": -1, "crcDecRaw": -1, "lenDecChunk": -1, "crcDecChunk": -1}
     if head is None:
         return blank
@@ -455,7 +608,7 @@ def wire_fields(buf: bytes, head: Optional[dict], end: int) -> Dict[str, Any]:
     chunk_ok = bool(ch["ok"] and ch["end"] == end)
     out = dict(blank)
     out.update({"present": True, "hdrs": [[k, v] for k, v in hdrs], "cl": cl, "te": te, "conn": conn, "expect": expect,
-                "ce": ce, "after": len(raw), "chunkOk": chunk_ok,
+                "ce": ce, "after": len(raw), "chunkOk": chunk_ok, "chunkShort": bool(ch.get("short")) and not chunk_ok,
                 "chunkRecs": ch["recs"] if chunk_ok else [], "chunkTrailer": ch["trailer"] if chunk_ok else 0,
                 "dataLen": len(ch["data"]) if chunk_ok else 0})
     d = one_shot_decode(raw, ce)
@@ -483,9 +636,12 @@ def build_trace(rec: dict) -> dict:
     kw = rec["kw"]
     ev: List[dict] = []
     known = rq["body"] not in ("form", "multipart")
+    aborted = q.get("aborted", "none")
+    intact = rec.get("intact", {"req": True, "resp": True})
     issue = {"ev": "issue", "method": rec["method"].upper(), "ver": _ver(rq["version"]),
              "path": url.path, "query": pairs(url.query.items()),
-             "hdrs": lower_names(kw["headers"]), "cookies": sorted(pairs((rq["cookies"] or {}).items())),
+             "hdrs": lower_names(rec.get("issued") or kw["headers"]),
+             "cookies": sorted(pairs((rq["cookies"] or {}).items())),
              "bodyLen": len(rec["logical"]), "bodyCrc": crc(rec["logical"]), "bodyKnown": known,
              "hasTarget": rec["method"].upper() != "CONNECT", "apiExc": res.get("api_exc", "")}
     ev.append(issue)
@@ -494,7 +650,8 @@ def build_trace(rec: dict) -> dict:
     qh = parse_head(c2s, 0)
     qw = wire_fields(c2s, qh, len(c2s))
     line = (qh["line"].split(" ", 2) + ["", "", ""])[:3] if qh else ["", "", ""]
-    qw.update({"ev": "reqwire", "method": line[0], "target": line[1], "ver": _ver(line[2]), "got100": 0})
+    qw.update({"ev": "reqwire", "method": line[0], "target": line[1], "ver": _ver(line[2]), "got100": 0,
+               "attempt": int(q.get("retried", 0))})
     # ---- wire: response (skip interim 1xx heads)
     interim = 0
     pos = 0
@@ -523,37 +680,56 @@ def build_trace(rec: dict) -> dict:
     if res.get("api_exc"):
         pass
     else:
-        if sh is None:
+        if sh is None and aborted == "none":
             ev.append({"ev": "early", "expect": bool(qw["expect"]), "ver": qw["ver"], "interim": interim,
                        "cliDone": q["cliDone"], "handlerDone": q["handlerDone"], "handlerEntered": q["handlerEntered"]})
         ev.append(qw)
         ev.append({"ev": "handler", "entered": int(seen.get("entered", 0)), "method": seen.get("method", ""),
-                   "path": seen.get("path", ""), "query": seen.get("query", []), "hdrs": seen.get("headers", []), "hmap": seen.get("hmap", []),
+                   "path": seen.get("path", ""), "query": seen.get("query", []), "hdrs": seen.get("headers", []),
+                   "hmap": seen.get("hmap", []),
                    "cookies": seen.get("cookies", []), "ver": _ver(seen.get("version", "")),
                    "bodyLen": seen.get("body_len", 0) or 0, "bodyCrc": seen.get("body_crc", 0) or 0,
-                   "bodyExc": seen.get("body_exc", "") or ""})
-        ret = seen.get("ret") or {"status": 0, "reason": "", "headers": [], "body_len": -1, "body_crc": -1, "refused": ""}
-        ev.append({"ev": "returned", "status": ret["status"], "reason": ret["reason"] or "", "hdrs": ret["headers"],
-                   "bodyLen": ret["body_len"], "bodyCrc": ret["body_crc"], "bodyKnown": ret["body_len"] >= 0,
-                   "refused": ret["refused"]})
-        ev.append(sw)
-        ev.append({"ev": "quiesce", "cliDone": q["cliDone"], "handlerDone": q["handlerDone"],
+                   "bodyExc": seen.get("body_exc", "") or "", "bodyRead": bool(seen.get("body_read", False)),
+                   "rejected": bool(seen.get("rejected", False))})
+        quiesce = {"ev": "quiesce", "cliDone": q["cliDone"], "handlerDone": q["handlerDone"],
                    "handlerEntered": q["handlerEntered"], "srvClosed": q["srvClosed"], "cliClosed": q["cliClosed"],
                    "srvClosedOwn": q["srvClosedOwn"], "cliClosedOwn": q["cliClosedOwn"], "probe": q["probe"],
                    "probeNewConn": q["probeNewConn"], "lostC2S": q["lostC2S"], "lostS2C": q["lostS2C"],
-                   "srvDrExc": q["srvDrExc"], "cliDrExc": q["cliDrExc"], "loopExcs": len(rec["loop_excs"])})
-        ev.append({"ev": "caller", "gotHead": bool(res.get("got_head")), "status": res.get("status", 0),
-                   "reason": res.get("reason", "") or "", "hdrs": res.get("headers", []), "hmap": res.get("hmap", []), "ver": _ver(res.get("version", "")),
-                   "gotBody": bool(res.get("got_body")), "bodyLen": res.get("body_len", 0), "bodyCrc": res.get("body_crc", 0),
-                   "exc": res.get("exc", "")})
+                   "srvDrExc": q["srvDrExc"], "cliDrExc": q["cliDrExc"], "loopExcs": len(rec["loop_excs"]),
+                   "aborted": aborted, "pre": q.get("pre", "fresh"), "retried": int(q.get("retried", 0)),
+                   "reqHdrsIntact": bool(intact["req"]), "respHdrsIntact": bool(intact["resp"])}
+        caller = {"ev": "caller", "gotHead": bool(res.get("got_head")), "status": res.get("status", 0),
+                  "reason": res.get("reason", "") or "", "hdrs": res.get("headers", []), "hmap": res.get("hmap", []),
+                  "ver": _ver(res.get("version", "")),
+                  "gotBody": bool(res.get("got_body")), "bodyLen": res.get("body_len", 0), "bodyCrc": res.get("body_crc", 0),
+                  "exc": res.get("exc", "")}
+        if aborted != "none":
+            # the caller gave up: what the server wrote afterwards is not judged, what happens to the connection is
+            ev.append({"ev": "aborted", "at": aborted})
+        else:
+            ret = seen.get("ret") or {"status": 0, "reason": "", "headers": [], "body_len": -1, "body_crc": -1, "refused": ""}
+            ev.append({"ev": "returned", "status": ret["status"], "reason": ret["reason"] or "", "hdrs": ret["headers"],
+                       "bodyLen": ret["body_len"], "bodyCrc": ret["body_crc"], "bodyKnown": ret["body_len"] >= 0,
+                       "refused": ret["refused"]})
+            ev.append(sw)
+        ev.append(quiesce)
+        ev.append(caller)
     # ---- model inputs for the refinement clauses
     m = rec["method"].upper()
     rconn = {"none": "absent", "close": "close", "keep-alive": "keepalive"}[qw["conn"]] if qh else rq["rconn"]
+    # carry: was the shared header container used for a chunked response before?  (recorded by the handler)
+    carry = "te" if any(h[0].lower() == "transfer-encoding" for h in (seen.get("shared_before") or [])) else "none"
+    hook = rs.get("hook", "ok") if rs["kind"] in ("streamCL", "streamChunked", "streamPlain") else "ok"
     rinp = {"m": m, "ver": _ver(rq["version"]), "rconn": rconn, "st": rs["status"], "kind": rs["kind"],
-            "comp": rs["comp"], "fclose": bool(rs["fclose"]), "hconn": rs["hconn"]}
-    qinp = {"m": m, "ver": _ver(rq["version"]), "body": REQ_BODY_CLASS[rq["body"]], "chunked": rq["chunked"],
-            "compress": rq["compress"] != "off", "expect": bool(rq["expect"])}
-    cfg = {"family": plan.get("family", ""), "rvalid": m in METHODS, "rinp": rinp,
+            "comp": rs["comp"], "fclose": bool(rs["fclose"]), "hconn": rs["hconn"], "carry": carry, "hook": hook}
+    body_class = dict(REQ_BODY_CLASS, slowSized="slowSized", slowUnsized="slowUnsized")[rq["body"]]
+    xmode = {"default": "default", "reject417": "reject", "reject403": "reject", "no100": "no100"}[rq.get("expectMode", "default")]
+    qinp = {"m": m, "ver": _ver(rq["version"]), "body": body_class, "chunked": rq["chunked"],
+            "compress": rq["compress"] != "off", "expect": bool(rq["expect"]), "early": bool(rs.get("early", False)),
+            "xmode": xmode, "abort": rq.get("abort", "none"), "pre": q.get("pre", "fresh"),
+            "chost": any(h[0].lower() == "host" for h in rq["headers"])}
+    plain = not rs.get("early") and xmode == "default" and qinp["abort"] == "none"
+    cfg = {"family": plan.get("family", ""), "rvalid": m in METHODS and plain, "rinp": rinp,
            "rn": rs["n"] if rs["kind"] != "bytes0" else 0,
            "qvalid": m in ("GET", "HEAD", "POST", "DELETE"), "qinp": qinp,
            "qn": len(rec["logical"]) if known else -5}
@@ -563,9 +739,10 @@ def build_trace(rec: dict) -> dict:
 
 # ------------------------------------------------------------------ enumeration of the product space
 RESP_DIMS = [("m", METHODS), ("ver", VERSIONS), ("rconn", RCONN), ("st", STATUSES), ("kind", KINDS),
-             ("comp", COMPS), ("fclose", [False, True]), ("hconn", HCONN)]
-REQ_DIMS = [("m", ["GET", "HEAD", "POST", "DELETE"]), ("ver", VERSIONS), ("body", RBODY), ("chunked", RCHUNKED),
-            ("compress", RCOMPRESS), ("expect", [False, True])]
+             ("comp", COMPS), ("fclose", [False, True]), ("hconn", HCONN), ("hook", HOOKS)]
+REQ_BASE_DIMS = [("m", ["GET", "HEAD", "POST", "DELETE"]), ("ver", VERSIONS), ("body", RBODY), ("chunked", RCHUNKED),
+                 ("compress", RCOMPRESS), ("expect", [False, True])]
+REQ_DIMS = REQ_BASE_DIMS + [("early", [False, True]), ("xmode", XMODES), ("abort", ABORTS), ("pre", PRES)]
 
 
 def product(dims: List[tuple]) -> List[dict]:
@@ -574,8 +751,23 @@ def product(dims: List[tuple]) -> List[dict]:
 
 
 def expressible_resp(c: dict) -> bool:
-    # the aiohttp client always adds "Connection: keep-alive" to an HTTP/1.0 request that has no Connection header
-    return not (c["ver"] == "1.0" and c["rconn"] == "absent")
+    # the aiohttp client always adds "Connection: keep-alive" to an HTTP/1.0 request that has no Connection header;
+    # an on_response_prepare failure is looked at where prepare() is called by the handler (stream kinds)
+    return not (c["ver"] == "1.0" and c["rconn"] == "absent") and (c["hook"] == "ok" or c["kind"] in STREAM_KINDS)
+
+
+def expressible_req(c: dict) -> bool:
+    if c["xmode"] != "default" and not c["expect"]:
+        return False
+    if c["xmode"] == "no100" and not c["early"]:
+        return False            # a handler that waits for a body nobody was told to send is an application bug
+    if c["abort"] != "none" and (c["early"] or c["xmode"] != "default" or c["pre"] != "fresh"):
+        return False
+    if c["pre"] != "fresh" and (c["early"] or c["xmode"] != "default"):
+        return False
+    if c["pre"] == "stale" and c["m"] == "POST":
+        return False            # not idempotent: no retry, the caller legitimately sees ServerDisconnectedError
+    return True
 
 
 def pairwise_subset(combos: List[dict], dims: List[tuple], rng: Any, target: int) -> List[dict]:
@@ -616,7 +808,10 @@ def resp_plan(world: World, c: dict, rng: Any) -> dict:
     resp = {"status": c["st"], "kind": c["kind"], "n": n, "comp": c["comp"], "fclose": c["fclose"], "hconn": c["hconn"],
             "headers": [list(h) for h in rng.choice(RESP_HEADERS)], "reason": rng.choice(REASONS),
             "coding": rng.choice(["gzip", "deflate"]), "wstep": rng.choice([0, 0, 1000, 30000]),
-            "chunk": rng.choice([256 * 1024, 4096])}
+            "chunk": rng.choice([256 * 1024, 4096]), "hook": c.get("hook", "ok"),
+            "hcont": rng.choice(["list", "dict", "shared", "shared"]), "early": False, "delay": "none"}
+    req.update({"expectMode": "default", "abort": "none", "pre": rng.choice(["fresh", "fresh", "reused"]),
+                "hcont": rng.choice(["list", "shared"])})
     plan = world.new_plan(req, resp)
     plan["family"] = "resp"
     return plan
@@ -628,15 +823,26 @@ def req_plan(world: World, c: dict, rng: Any) -> dict:
         n = rng.choice([1, 100, 2048, 65536])
     req = {"method": c["m"], "version": c["ver"], "rconn": "absent", "path": rng.choice(PATHS), "query": rng.choice(QUERIES),
            "headers": [list(h) for h in rng.choice(REQ_HEADERS)], "cookies": rng.choice(COOKIES),
-           "body": c["body"], "n": n, "chunked": c["chunked"], "compress": c["compress"], "expect": c["expect"]}
+           "body": c["body"], "n": n, "chunked": c["chunked"], "compress": c["compress"], "expect": c["expect"],
+           "expectMode": c.get("xmode", "default"), "abort": c.get("abort", "none"), "pre": c.get("pre", "fresh"),
+           "hcont": rng.choice(["list", "shared"])}
+    if c["body"] in ("slowSized", "slowUnsized"):
+        req["n"] = rng.choice([30, 100, 2049])
     if c["body"] in ("form", "multipart"):
         req["headers"] = [h for h in req["headers"] if h[0].lower() != "content-type"]
+    if req["pre"] == "stale" and rng.random() < 0.6:
+        req["headers"] = [list(h) for h in REQ_HEADERS[-1]]       # the caller's own Host header
     kinds = ["bytesN", "bytesN", "streamPlain", "paySized"] if c["ver"] == "1.1" else ["bytesN", "paySized", "streamCL"]
     if c["m"] == "HEAD":
         kinds = ["bytesN", "paySized"]
-    resp = {"status": 200, "kind": rng.choice(kinds), "n": rng.choice([1, 100, 2049]),
+    delay = {"none": "none", "beforeHead": "head", "midBody": "body"}[req["abort"]]
+    if delay == "body":
+        kinds = ["streamPlain", "streamCL"] if c["ver"] == "1.1" else ["streamCL"]
+    resp = {"status": rng.choice([200, 200, 404]) if c.get("early") else 200, "kind": rng.choice(kinds),
+            "n": rng.choice([1, 100, 2049]) if delay != "body" else rng.choice([100, 2049]),
             "comp": "off", "fclose": False, "hconn": "none", "headers": [list(h) for h in rng.choice(RESP_HEADERS)],
-            "reason": None, "coding": "gzip", "wstep": 0, "chunk": 256 * 1024}
+            "reason": None, "coding": "gzip", "wstep": 0, "chunk": 256 * 1024, "hook": "ok",
+            "hcont": rng.choice(["list", "dict", "shared"]), "early": bool(c.get("early", False)), "delay": delay}
     plan = world.new_plan(req, resp)
     plan["family"] = "req"
     return plan
@@ -656,10 +862,11 @@ def variants(rec: dict, which: Any, thorough: bool) -> List[Tuple[Any, Any]]:
     sp = cut_plans(s2c, sh, is_chunked(sh))
     qb = qh["body_at"] if qh else 0
     sb = sh["body_at"] if sh else 0
-    out: List[Tuple[str, Any, Any]] = [("byte", ByteWise(qb + 300), ByteWise(sb + 300))]
+    qo, so = rec.get("off", (0, 0))          # the exchange may start in the middle of a reused connection's streams
+    out: List[Tuple[str, Any, Any]] = [("byte", ByteWise(qo + qb + 300), ByteWise(so + sb + 300))]
     for name in sorted(set(qp) | set(sp)):
-        out.append((name, Cuts(qp.get(name, []), name) if name in qp else Whole(),
-                    Cuts(sp.get(name, []), name) if name in sp else Whole()))
+        out.append((name, Cuts([qo + x for x in qp.get(name, [])], name) if name in qp else Whole(),
+                    Cuts([so + x for x in sp.get(name, [])], name) if name in sp else Whole()))
     out.append(("fixed7/1460", Fixed(7) if len(c2s) < 5000 else Fixed(1460), Fixed(1460)))
     out.append(("fixed1460/3", Fixed(1460), Fixed(3) if len(s2c) < 5000 else Fixed(1000)))
     # quick: one segmentation per combination, thorough: three; `which` rotates through all of them
@@ -684,6 +891,12 @@ CLAUSE_NOTES = {
     "ConnectPooledByClient": "2xx answer to CONNECT is pooled by the client",
     "Http10TransferEncoding": "Transfer-Encoding: chunked sent on an HTTP/1.0 request",
     "Expect100NeverAnswered": "HTTP/1.0 request with Expect: 100-continue: the server (correctly) ignores it, the client waits forever",
+    "ErrorPageThroughChunkingWriter": "an on_response_prepare handler raised inside StreamResponse.prepare() after the writer had been "
+                                      "switched to chunked mode: the 500 page declares Content-Length and is sent chunk-framed",
+    "WithheldBodyConnectionReused": "Expect: 100-continue answered by a final response (expect handler 417/403, or a handler that "
+                                    "does not read the body): the request body is never sent, yet the client returns the "
+                                    "connection to the pool while the server still waits for that body",
+    "HostDroppedOnRetry": "a request retried on a new connection (the pooled one was dead) is sent without the caller's Host header",
     "ErrorPageThroughStaleWriter": "StreamResponse.prepare() raised after writer.enable_compression(): the 500 page that aiohttp sends "
                                    "instead is compressed although its Content-Length counts the plain text (no Content-Encoding)",
 }
@@ -693,12 +906,14 @@ def signature(t: dict, clause: str) -> str:
     pl = json.loads(t["plan"])
     q, r = pl["req"], pl["resp"]
     if pl.get("family") == "req" or clause in ("ChunkFramingWithContentLength", "ChunkFramingUndeclared", "HeadRequestBodyDropped",
-                                                 "Http10TransferEncoding", "Expect100NeverAnswered"):
+                                                 "Http10TransferEncoding", "Expect100NeverAnswered",
+                                                 "WithheldBodyConnectionReused", "HostDroppedOnRetry"):
         core = (f"request {q['method']} HTTP/{q['version']} body={q['body']} chunked={q['chunked']} compress={q['compress']} "
-                f"expect={q['expect']}")
+                f"expect={q['expect']} expectMode={q.get('expectMode', 'default')} early={r.get('early', False)} "
+                f"abort={q.get('abort', 'none')} pre={q.get('pre', 'fresh')}")
     else:
         core = (f"response to {q['method']} HTTP/{q['version']} Connection:{q['rconn']} status={r['status']} kind={r['kind']} "
-                f"comp={r['comp']} force_close={r['fclose']} handler-Connection={r['hconn']}")
+                f"comp={r['comp']} force_close={r['fclose']} handler-Connection={r['hconn']} hook={r.get('hook', 'ok')}")
     return f"{clause}: {core}"
 
 
@@ -778,8 +993,20 @@ DEVIATIONS = {   # constant -> (clause reported when TLC exhibits it, invariants
     "Expect10Proceeds": ("Expect100NeverAnswered", "HTTP/1.0 + Expect: 100-continue: client waits for a 100 the server must not send"),
     "RefusedPrepareCleansWriter": ("ErrorPageThroughStaleWriter", "prepare() raises (chunked on HTTP/1.0) after enable_compression: "
                                    "the framework's 500 page is written through the compressing writer"),
+    "FailedPrepareCleansWriter": ("ErrorPageThroughChunkingWriter", "an on_response_prepare handler raises inside prepare(): the 500 "
+                                  "page is written through the writer state (chunking, compression) of the failed response"),
+    "WithheldBodyCloses": ("WithheldBodyConnectionReused", "Expect: 100-continue answered by a final response: the body is never "
+                           "sent, yet the client pools the connection"),
+    "HostKeptOnRetry": ("HostDroppedOnRetry", "retry of an idempotent request on a new connection loses the caller's Host header"),
 }
-INVS = ["FramingTruthful", "ReceiverFollowsRfc", "CloseAgree", "NoHang"]
+# mechanisms: TRUE in the ideal design and in the code as found; only the self-test / exhibits switch them off
+MECHANISMS = {
+    "CutBodyCloses": "client closes the connection when the body writer is cancelled in mid-body by an early response",
+    "CancelCloses": "client closes the connection of a caller cancelled before the end of the response",
+    "FreshHeaderContainer": "StreamResponse copies the header container it is given",
+}
+CONSTANTS = list(DEVIATIONS) + list(MECHANISMS)
+INVS = ["FramingTruthful", "ReceiverFollowsRfc", "CloseAgree", "NoHang", "UnfinishedNeverReused", "RetrySameRequest"]
 SPEC_DIR = os.path.join(os.path.dirname(os.path.dirname(os.path.abspath(__file__))), "spec")
 
 
@@ -801,8 +1028,8 @@ def write_cfg(name: str, consts: Dict[str, bool], invs: List[str], spec: str = "
     p = os.path.join(d, name + ".cfg")
     with open(p, "w") as f:
         f.write(f"SPECIFICATION {spec}\nCONSTANTS\n")
-        for k in DEVIATIONS:
-            f.write(f"  {k} = {'TRUE' if consts[k] else 'FALSE'}\n")
+        for k in CONSTANTS:
+            f.write(f"  {k} = {'TRUE' if consts.get(k, True) else 'FALSE'}\n")
         for i in invs:
             f.write(f"INVARIANT {i}\n")
         if post:
@@ -824,9 +1051,10 @@ def model_runs(ctx: Ctx) -> None:
     from engine import tlc as _t
 
     coded = as_coded()
-    ideal = {k: True for k in DEVIATIONS}
-    names = list(DEVIATIONS)
-    parts = [names[i::3] for i in range(3)]
+    ideal = {k: True for k in CONSTANTS}
+    # quick: enumerate the deviations that are still open; thorough: every switch, the mechanisms included
+    names = [k for k in DEVIATIONS if not coded[k]] if ctx.quick else list(CONSTANTS)
+    parts = [p for p in (names[i::3] for i in range(3)) if p]
 
     def exhibit(part: List[str]) -> Any:
         cfg = write_cfg("exhibit", ideal, [], spec="XSpec", post="PrintSome")
@@ -856,8 +1084,8 @@ def model_runs(ctx: Ctx) -> None:
             if v and v[0] == "E":
                 exhibits[v[1]] = v
     ctx.log(f"exhibit enumeration: {max(r.wall_s for r in xs):.1f}s")
-    if set(exhibits) != set(DEVIATIONS):
-        raise MachineryError(f"Exhibit reported {sorted(exhibits)}, expected {sorted(DEVIATIONS)}")
+    if set(exhibits) != set(names):
+        raise MachineryError(f"Exhibit reported {sorted(exhibits)}, expected {sorted(names)}")
     summary = {}
     for k in names:
         v = exhibits[k]
@@ -866,7 +1094,7 @@ def model_runs(ctx: Ctx) -> None:
         if not broken:
             ctx.notes.append(f"deviation constant {k}=FALSE breaks no invariant (vacuous constant)")
             continue
-        if not coded[k]:         # still present in the code as found: TLC's witness is the model-level finding
+        if k in coded and not coded[k]:         # still present in the code as found: TLC's witness is the model-level finding
             w = " ".join(f"{a}={wit[a]}" for a in sorted(wit)) if isinstance(wit, dict) else str(wit)
             ctx.violation(DEVIATIONS[k][0], f"model: {k}=FALSE violates {'/'.join(broken)} on {count} inputs, e.g. {w}",
                           {"constant": k, "breaks": broken, "inputs": count, "witness": wit, "what": DEVIATIONS[k][1]}, "model")
@@ -912,7 +1140,8 @@ def run(ctx: Ctx) -> None:
     judge = Judge(ctx, write_cfg("WireDecisionTrace", coded, [], spec="TSpec", post=True))
     rng = ctx.rng
     resp_all = [c for c in product(RESP_DIMS) if expressible_resp(c)]
-    req_all = product(REQ_DIMS)
+    req_all = [c for c in product(REQ_DIMS) if expressible_req(c)]
+    req_base = [dict(c, early=False, xmode="default", abort="none", pre="fresh") for c in product(REQ_BASE_DIMS)]
     if ctx.quick:
         # half of the budget goes to the sub-space where the known deviations do not fire, so that they mask little
         plain = [c for c in resp_all if c["comp"] == "off" and c["hconn"] == "none" and c["m"] != "CONNECT"]
@@ -920,9 +1149,11 @@ def run(ctx: Ctx) -> None:
         resp_sel = pairwise_subset(resp_all, RESP_DIMS, rng, 700)
         have = {json.dumps(c, sort_keys=True) for c in resp_sel}
         resp_sel += [c for c in pairwise_subset(plain, plain_dims, rng, 450) if json.dumps(c, sort_keys=True) not in have]
-        req_sel = pairwise_subset(req_all, REQ_DIMS, rng, 400)
+        req_sel = pairwise_subset(req_all, REQ_DIMS, rng, 650)
     else:
-        resp_sel, req_sel = resp_all, req_all
+        # every combination of the framing dimensions; the scenario dimensions (early answer, expect handling, abort,
+        # connection history) pairwise + sampled
+        resp_sel, req_sel = resp_all, req_base + pairwise_subset(req_all, REQ_DIMS, rng, 6000)
         rng.shuffle(resp_sel)
     ctx.extra["combos"] = {"response_total": len(resp_all), "response_run": len(resp_sel),
                            "request_total": len(req_all), "request_run": len(req_sel)}
@@ -975,12 +1206,16 @@ def selftest(ctx: Ctx) -> int:
     ok = True
     coded = as_coded()
     # (ii) spec-level mutants: switching a mechanism off must be caught by TLC
-    for k in ("Http10UnsizedCloses", "ChunkedFlagTruthy"):
-        c = {d: True for d in DEVIATIONS}
+    from concurrent.futures import ThreadPoolExecutor
+
+    def mutant(k: str) -> Any:
+        c = {d: True for d in CONSTANTS}
         c[k] = False
-        r = run_tlc("WireDecision", write_cfg("mut_" + k, c, INVS), workers=8, timeout=600, deadlock=False)
-        print(f"mutant model ({k}=FALSE): violated={r.violated}")
-        ok &= r.violated in INVS
+        return k, run_tlc("WireDecision", write_cfg("mut_" + k, c, INVS), workers=4, timeout=900, deadlock=False)
+    with ThreadPoolExecutor(max_workers=5) as ex:
+        for k, r in ex.map(mutant, ["Http10UnsizedCloses", "ChunkedFlagTruthy"] + list(MECHANISMS)):
+            print(f"mutant model ({k}=FALSE): violated={r.violated}")
+            ok &= r.violated in INVS
     # the as-coded model with the full invariants must be rejected as long as a deviation is open
     if not all(coded.values()):
         r = run_tlc("WireDecision", write_cfg("full", coded, INVS), workers=8, timeout=600, deadlock=False)
